@@ -78,11 +78,13 @@ class LaTeXRenderer(BaseRenderer):
         return self.render_inner(token)
 
     def render_raw_text(self, token, escape=True):
-        return (token.content.replace('$', '\\$').replace('#', '\\#')
-                             .replace('{', '\\{').replace('}', '\\}')
-                             .replace('&', '\\&').replace('_', '\\_')
-                             .replace('%', '\\%').replace('^', '\\^{}')
-               ) if escape else token.content
+        # note: the backslash has to be handled in the same pass as the other characters,
+        # or the braces and backslashes of the replacement texts would be escaped again.
+        return token.content.translate(self._escapes) if escape else token.content
+
+    _escapes = str.maketrans({'$': '\\$', '#': '\\#', '{': '\\{', '}': '\\}',
+                              '&': '\\&', '_': '\\_', '%': '\\%', '^': '\\^{}',
+                              '\\': '\\textbackslash{}'})
 
     def render_heading(self, token):
         inner = self.render_inner(token)
